@@ -733,7 +733,19 @@ func genC11(t *rapid.T) c11Case {
 	n := rapid.IntRange(1, 12).Draw(t, "N")
 	c := c11Case{N: n, PermSeed: rapid.Uint64().Draw(t, "permseed"), CLI: rapid.IntRange(0, 14).Draw(t, "cli") == 0}
 	var recs []vRec
-	switch rapid.IntRange(0, 5).Draw(t, "shape") {
+	switch rapid.IntRange(0, 6).Draw(t, "shape") {
+	case 6: // a ring nothing leads into, beside an acyclic part with much sharing (recipes used by several recipes, used
+		// directly and through another recipe, listed on several lines)
+		c.Shape = "isolated-cycle+sharing"
+		recs = c11Cycle(rapid.IntRange(1, 6).Draw(t, "K"), 0)
+		nshare := rapid.IntRange(1, 5).Draw(t, "nshare")
+		for i := 0; i < nshare; i++ {
+			base := fmt.Sprintf("sh~%d", i)
+			recs = append(recs,
+				vRec{Head: base + "a", HL: vLayout{EOL: "\n"}, Lines: []vLine{c11Entry("x", "1")}},
+				vRec{Head: base + "b", HL: vLayout{EOL: "\n"}, Lines: []vLine{c11Entry(base+"a", "1"), c11Entry(base+"a", "2")}},
+				vRec{Head: base + "c", HL: vLayout{EOL: "\n"}, Lines: []vLine{c11Entry(base+"a", "1"), c11Entry(base+"b", "1"), c11Entry(base+"b", "3")}})
+		}
 	case 0: // pure chain(s)
 		c.Shape = "chain"
 		L := n + rapid.IntRange(-3, 3).Draw(t, "dL")
